@@ -75,6 +75,21 @@ def structured(rng, count):
     return out
 
 
+def eightbit():
+    """Every byte 0x80..0xff where a decoder must not take it for a 7-bit character (tools/gen_msg.py: replacing the first / a middle /
+    the last character of valid base64 of three paddings, in and around the padding, as a group of four; literal, behind `=` and
+    around soft breaks in quoted-printable) - deterministic, whatever the seed.  The exhaustive alphabet above is 7-bit."""
+    import gen_msg
+    out = []
+    for b in gen_msg.EIGHTBIT:
+        for text in (b'hello world, x\n', b'hello world, xy\n', b'hello world, xyz\n'):
+            out += [body.replace(b'\n', b'') for _, body in gen_msg.b64_with_8bit(text, b)]      # (one C string, no line structure: the `b64` op)
+            out += [body for _, body in gen_msg.b64_with_8bit(text, b)[:3]]
+        out += [body for _, body in gen_msg.qp_with_8bit(b'caf\xe9 = 1 \n long ' + b'x' * 70 + b'\n', b)]
+        out += [b'=?utf-8?B?' + bytes([b]) + b'GVsbG8=?=', b'=?utf-8?B?aGVs' + bytes([b]) + b'G8=?=', b'=?utf-8?Q?a' + bytes([b]) + b'=41?=']
+    return sorted(set(nonul(s) for s in out))
+
+
 def H(req):
     return all(0 not in a for a in req[1:])
 
@@ -92,6 +107,8 @@ def run(rep):
     strings = list(exhaustive(L))
     n_ex = len(strings)
     strings += structured(rng, nrand)
+    n_8bit = len(eightbit())
+    strings += eightbit()
     reqs = [(op, s) for s in strings for op in OPS]
     d = vlib.Differential(rep, [harness], name='h_decode')
     impl, model, spec = d.run(reqs, H=H)
@@ -106,8 +123,9 @@ def run(rep):
         'evaluations': d.evals,
         'distinct_nontrivial': len(nontriv),
         'rule': 'all strings of length <= %d over the 14-symbol alphabet %r (exhaustive, %d strings) plus %d structured random strings '
-                '(seeded), each through 5 decoder entry points; non-trivial = the implementation decoded something (output differs '
-                'from input and is not empty/failure); distinct by (op, input)' % (L, b''.join(ALPHABET), n_ex, nrand),
+                '(seeded) plus %d strings with every byte 0x80..0xff at the start / middle / end / padding of valid base64, inside quoted-printable '
+                'and inside encoded words (deterministic), each through 5 decoder entry points; non-trivial = the implementation decoded something (output differs '
+                'from input and is not empty/failure); distinct by (op, input)' % (L, b''.join(ALPHABET), n_ex, nrand, n_8bit),
         'exhaustive': True,
         'samples': [{'request': d.line(reqs[i]), 'implementation': impl[i], 'model': model[i], 'specification': spec[i]}
                     for i in rng.sample(range(len(reqs)), 6)],
